@@ -421,7 +421,11 @@ func (c *FnCtx) evalUnary(env *Env, x *ast.UnaryExpr) Val {
 		_, hi := intRange(bits, false)
 		return Val{T: app("-", bigLit(hi), v.T), Typ: v.Typ}
 	case token.ARROW:
-		c.unsup(x, "channel receive")
+		if env.spec {
+			c.unsup(x, "channel receive in a specification")
+		}
+		rv, _ := c.chanRecv(env.st, c.eval(env, x.X), x)
+		return rv
 	}
 	c.unsup(x, "unary %s", x.Op)
 	return Val{}
